@@ -7,5 +7,6 @@ UNIT = Unit(
     "U-bitvec", "u_bitvec/skeleton.rs",
     items=cb.items("stub", "util", only=["set_bit", "get_bit"]) + bv.items("verify", "util"),
     serves=["C01", "C06", "C11", "C12", "C03", "C19", "C04"],
+    carry_facts_into_loops=False,   # this unit's proofs need isolated loops (loop `ensures` clauses, or the solver runs out of resources with the wider context)
     description="util::BitVec: the output bit vector (MSB-first writes, spans)",
 )
